@@ -67,7 +67,23 @@ SITUATIONS = [
 BLOCK = 4
 
 
-async def _situation(loop, sit, backend, k, repeat_name=None, pipelined=False):
+# what a backend may raise: any exception class counts as a backend failure (`universal_exception` lets only
+# CancelledError, NotImplementedError and StopAsyncIteration through); TimeoutError is an OSError since 3.11
+# (ETIMEDOUT from a network file system, or the expiry of `path_timeout`)
+FAULT_CLASSES = [
+    ("OSError", lambda m: OSError(5, m)),
+    ("TimeoutError", lambda m: TimeoutError(110, m)),
+    ("PermissionError", lambda m: PermissionError(13, m)),
+    ("ValueError", lambda m: ValueError(m)),
+    ("asyncio.TimeoutError", lambda m: __import__("asyncio").TimeoutError(m)),
+]
+
+
+def fault_for(i, k):
+    return FAULT_CLASSES[(i * 7 + (k or 0)) % len(FAULT_CLASSES)]
+
+
+async def _situation(loop, sit, backend, k, repeat_name=None, pipelined=False, fault_class=0):
     name, prep, cmd, shape, needs_data = sit
     spy = spyio.Spy()
     wd = W.World(loop, S.USERS_ANON, backend=backend, spy=spy, server_kwargs={"block_size": BLOCK})
@@ -87,7 +103,7 @@ async def _situation(loop, sit, backend, k, repeat_name=None, pipelined=False):
         n0 = spy.n
         spy.name_count = {}
         if k is not None:
-            spy.fail_at[n0 + k] = OSError(5, "injected fault at backend call %d of %s" % (k, cmd))
+            spy.fail_at[n0 + k] = FAULT_CLASSES[fault_class][1]("injected fault at backend call %d of %s" % (k, cmd))
         if repeat_name is not None:
             spy.fail_name[repeat_name] = True
         data_t = a.data[1].transport if a.data else None
@@ -147,8 +163,9 @@ async def _situation(loop, sit, backend, k, repeat_name=None, pipelined=False):
 def _job(args):
     idx, backend, k, rep = args[:4]
     pipelined = len(args) > 4 and args[4]
+    fc = args[5] if len(args) > 5 else 0
     try:
-        return simnet.run(_situation, SITUATIONS[idx], backend, k, rep, pipelined)
+        return simnet.run(_situation, SITUATIONS[idx], backend, k, rep, pipelined, fc)
     except BaseException as e:  # noqa
         return "HARNESS-ERROR %s: %s" % (type(e).__name__, e)
 
@@ -199,7 +216,12 @@ def _run(ctx, compare=True):
             if isinstance(r, str):
                 continue
             for k in range(len(r["calls"])):
+                # every call index with the plain OSError, and with one other class in rotation (all of them
+                # in the thorough tier)
                 jobs.append((i, be, k, None))
+                others = range(1, len(FAULT_CLASSES)) if ctx.thorough() else [1 + (i * 7 + k) % (len(FAULT_CLASSES) - 1)]
+                for fc in others:
+                    jobs.append((i, be, k, None, False, fc))
             for kind in sorted(set(r["calls"])):
                 jobs.append((i, be, None, kind))
             if not SITUATIONS[i][4]:
@@ -221,16 +243,19 @@ def _run(ctx, compare=True):
     for job, r in zip(jobs, outs):
         i, be, k, rep = job[:4]
         pipelined = len(job) > 4 and job[4]
+        fc = job[5] if len(job) > 5 else 0
         sit = SITUATIONS[i]
         res.cases += 1
         res.count("backend=" + be)
+        if k is not None:
+            res.count("fault_class=" + FAULT_CLASSES[fc][0])
         if isinstance(r, str):
             res.disagreements.append({"correspondence": "harness", "input": [sit[0], be, k, rep], "impl": r})
             continue
         call = r["calls"][k] if k is not None and k < len(r["calls"]) else "all:" + str(rep)
         res.count("fault_in=" + call)
         if k is None or k > 0:
-            res.distinct.add((sit[0], be, k, rep))
+            res.distinct.add((sit[0], be, k, rep, fc))
         if pipelined:
             res.count("pipelined")
             pc = r.get("pipelined_codes") or []
@@ -246,8 +271,9 @@ def _run(ctx, compare=True):
             continue
         f = oracle(sit, be, k, rep, r)
         if f:
+            f["input"]["fault_class"] = FAULT_CLASSES[fc][0]
             res.oracle_failures.append(f)
-        if k is not None:
+        if k is not None and fc == 0:
             verb = sit[2].split(" ")[0].lower()
             lines.append("fault run %s %s %d" % (verb, shape_tok(sit[3], base[(i, be)]["calls"], verb), k))
             dc = "1" if r["data_closed"] else "0"
@@ -284,7 +310,8 @@ def search(ctx, prior):
 def _one(inp):
     names = [s[0] for s in SITUATIONS]
     i = names.index(inp["situation"])
-    r = _job((i, inp["backend"], inp.get("fault_at_call"), inp.get("all_calls_of_kind_fail"), bool(inp.get("pipelined_with"))))
+    fc = [n for n, _ in FAULT_CLASSES].index(inp.get("fault_class", "OSError"))
+    r = _job((i, inp["backend"], inp.get("fault_at_call"), inp.get("all_calls_of_kind_fail"), bool(inp.get("pipelined_with")), fc))
     return SITUATIONS[i], r
 
 
